@@ -33,12 +33,12 @@ REQUIRED_THEOREMS = [
     'kronecker_eq', 'isqrt_spec', 'iroot_spec', 'is_square_spec', 'factor_prime_power_sound',
     'ratrec_sound', 'powMod_eq',
 ]
-RULE = ('exhaustive: is_prime for all x in [-50, 10^5], next_prime/prev_prime for all x <= 4*10^4 (thorough 10^5) and every 5th above, '
-        'gcdext/invert/jacobi/kronecker/legendre for all pairs |a|,|b| <= R (quick R = 110, thorough R = 300) incl. '
-        'error cases, isqrt/is_square/iroot for all x <= 4*10^4 (thorough 2*10^5) plus every k-th x and all perfect '
+RULE = ('exhaustive: is_prime for all x in [-50, 10^5], next_prime/prev_prime for all x <= 2*10^4 (thorough 10^5) and every 7th above, '
+        'gcdext/invert/jacobi/kronecker/legendre for all pairs |a|,|b| <= R (quick R = 80, thorough R = 300) incl. '
+        'error cases, isqrt/is_square/iroot for all x <= 2*10^4 (thorough 2*10^5) plus every k-th x and all perfect '
         'powers +-1 up to 10^6 (iroot n in -1..21), factor_prime_power on all proper prime powers <= 10^6, all primes < 3000, '
         'a sample of larger primes and of non-powers, '
-        'ratrec for all y <= 40 with all x and small N, D (incl. None / invalid), powmod on a small cube; '
+        'ratrec for all y < 20 (thorough 41) with all x and small N, D (incl. None / invalid), powmod on a small cube; '
         'random: 64..2048-bit arguments built to hit each branch (primes, Carmichael / strong pseudoprimes, '
         'prime powers with prime above/below 2^10, multiples, |b| = 2g, exact roots +-1, constructed '
         'rational reconstructions). A case is distinct by (function, arguments).')
@@ -126,18 +126,17 @@ def drv_line(fn, args, bases=None):
     return ' '.join(toks)
 
 
-def run_driver(lines, nchunks=8):
+def run_driver(lines, nchunks=4):
     if len(lines) < 4000:
         return DRIVER.run(lines)
-    size = (len(lines) + nchunks - 1) // nchunks
-    chunks = [lines[i:i + size] for i in range(0, len(lines), size)]
+    chunks = [lines[k::nchunks] for k in range(nchunks)]     # round-robin: balances the expensive operations
     with ThreadPoolExecutor(len(chunks)) as ex:
         outs = list(ex.map(DRIVER.run, chunks))
-    res = []
-    for o in outs:
+    res = [None] * len(lines)
+    for k, o in enumerate(outs):
         if isinstance(o, common.DriverFailure):
             return o
-        res.extend(o)
+        res[k::nchunks] = o
     return res
 
 
@@ -170,7 +169,7 @@ def fresh_prime(rng, bits):
             return c
 
 
-def rand_prime(rng, bits, pool=3):
+def rand_prime(rng, bits, pool=2):
     """random prime of exactly `bits` bits; large ones come from a small per-size pool (generation is slow)"""
     if bits <= 160:
         return fresh_prime(rng, bits)
@@ -184,13 +183,13 @@ def rand_prime(rng, bits, pool=3):
 def gen_exhaustive(ctx):
     cases = []
     X = 100_000
-    XN = ctx.scale(40_000, 100_000)
+    XN = ctx.scale(20_000, 100_000)
     for x in range(-50, X + 1):
         cases.append(('is_prime', (x,), None))
-        if x <= XN or x % 5 == 0:
+        if x <= XN or x % 7 == 0:
             cases.append(('next_prime', (x,), None))
             cases.append(('prev_prime', (x,), None))
-    R = ctx.scale(110, 300)
+    R = ctx.scale(80, 300)
     fact = {y: orc.factorint(y) for y in range(1, R + 1)}
     oddpart = {}
     for y in range(1, R + 1):
@@ -209,8 +208,8 @@ def gen_exhaustive(ctx):
             cases.append(('legendre', (a, b), None))
     # roots: all x <= XR, every step-th x up to 10^6, all perfect powers +-1 up to 10^6
     squares = set(i * i for i in range(0, 1100))
-    XR = ctx.scale(40_000, 200_000)
-    step = ctx.scale(37, 3)
+    XR = ctx.scale(20_000, 200_000)
+    step = ctx.scale(53, 3)
     xs = set(range(-40, XR + 1)) | set(range(XR, 1_000_001, step))
     powers = set()
     for n in range(2, 21):
@@ -235,7 +234,7 @@ def gen_exhaustive(ctx):
     # prime powers <= 10^6 and non-powers (a prime > 2^10 costs ~170 is_prime calls in the code: sampled)
     sv = orc.sieve()
     rng = ctx.subrng('fpp-small')
-    nprimes = ctx.scale(1200, 12000)
+    nprimes = ctx.scale(600, 12000)
     primes_big = [p for p in range(3000, 1_000_001) if sv[p]]
     chosen = set(rng.sample(primes_big, nprimes))
     for p in range(2, 1_000_001):
@@ -248,7 +247,7 @@ def gen_exhaustive(ctx):
                 d += 1
     for x in range(-10, 3000):
         cases.append(('factor_prime_power', (x,), None))
-    for _ in range(ctx.scale(6000, 60000)):
+    for _ in range(ctx.scale(4000, 60000)):
         cases.append(('factor_prime_power', (rng.randrange(2, 1_000_001),), None))
     # products of two primes around 2^10 (first prime not covered by the trial stage)
     around = [p for p in range(ctx.scale(990, 900), ctx.scale(1070, 1200)) if sv[p]]
@@ -257,7 +256,7 @@ def gen_exhaustive(ctx):
             if p <= q:
                 cases.append(('factor_prime_power', (p * q,), ('err', 'ValueError') if p != q else ('ok', (p, 2))))
     # ratrec, small exhaustive
-    for y in range(-2, ctx.scale(24, 41)):
+    for y in range(-2, ctx.scale(20, 41)):
         for x in range(-3, y + 4):
             opts = [None] + list(range(-1, 6))
             for N in opts:
@@ -410,29 +409,30 @@ def evaluate(ctx, cases, what, corr=True):
     """run the real code on all cases, compare with the Lean driver, check with the oracle"""
     rec = _RecRandom(ctx.subrng('mr-bases', what))
     saved = gmpy.random
-    outcomes, lines = [], []
+    outcomes = [None] * len(cases)
+    lines = [None] * len(cases)
+    # is_prime first (cheap): its driver line needs the Miller-Rabin bases the real run drew
+    gmpy.random = rec
     try:
-        for fn, args, hint in cases:
+        for i, (fn, args, _hint) in enumerate(cases):
             if fn == 'is_prime':
-                gmpy.random = rec
                 rec.bases = []
-                out = call(fn, args)
-                gmpy.random = saved
-                lines.append(drv_line(fn, args, rec.bases))
+                outcomes[i] = call(fn, args)
+                lines[i] = drv_line(fn, args, rec.bases)
             else:
-                out = call(fn, args)
-                lines.append(drv_line(fn, args))
-            outcomes.append(out)
+                lines[i] = drv_line(fn, args)
     finally:
         gmpy.random = saved
-    fut = None
-    ex = None
-    if corr:
+    fut = ex = None
+    t_start = time.time()
+    if corr:   # the Lean driver processes run while the real code and the oracle are evaluated below
         ex = ThreadPoolExecutor(1)
         fut = ex.submit(run_driver, lines)
-    # oracle (in parallel with the Lean driver processes)
     nviol = 0
-    for (fn, args, hint), out in zip(cases, outcomes):
+    for i, (fn, args, hint) in enumerate(cases):
+        out = outcomes[i]
+        if out is None:
+            out = outcomes[i] = call(fn, args)
         ctx.case((fn, args))
         ctx.count(fn + ('/raises' if out[0] == 'err' else ''))
         if hint == 'skip':
@@ -444,9 +444,11 @@ def evaluate(ctx, cases, what, corr=True):
                 ctx.violation(f'{fn}{args} -> {canon(out)}: {msg}',
                               {'function': fn, 'args': list(args), 'observed': canon(out), 'expected': msg,
                                'hint': hint if not isinstance(hint, dict) else {str(k): v for k, v in hint.items()}})
+    t_py = time.time() - t_start
     if corr:
         model = fut.result()
         ex.shutdown()
+        ctx.note(f'{what}: real code + oracle {t_py:.1f}s, Lean driver finished after {time.time()-t_start:.1f}s')
         ctx.compare(f'gmpy stubs vs Lean NumTh model ({what})', [canon(o) for o in outcomes], model, lines)
     return outcomes
 
@@ -455,16 +457,14 @@ def run(ctx):
     assert gmpy.version() == 'MPyC stubs', 'gmpy2 present: stubs not under test'
     t0 = time.time()
     cases = gen_exhaustive(ctx)
-    ctx.note(f'exhaustive cases: {len(cases)} (generated in {time.time()-t0:.1f}s)')
-    evaluate(ctx, cases, 'exhaustive')
-    t1 = time.time()
-    ctx.note(f'exhaustive part: {t1-t0:.1f}s')
-    cases = gen_random(ctx)
-    ctx.note(f'random large cases: {len(cases)}')
-    outs = evaluate(ctx, cases, 'random')
-    for (fn, args, _h), o in list(zip(cases, outs))[:: max(1, len(cases) // 4)]:
+    nex = len(cases)
+    rnd = gen_random(ctx)
+    cases += rnd
+    ctx.note(f'cases: {nex} exhaustive + {len(rnd)} random large (generated in {time.time()-t0:.1f}s)')
+    outs = evaluate(ctx, cases, 'exhaustive+random')
+    for (fn, args, _h), o in list(zip(cases[nex:], outs[nex:]))[:: max(1, len(rnd) // 4)]:
         ctx.sample({'function': fn, 'args': [str(a) for a in args], 'result': canon(o)})
-    ctx.note(f'random part: {time.time()-t1:.1f}s')
+    ctx.note(f'run: {time.time()-t0:.1f}s')
     ctx.note('observation (not a violation): ratrec(x, y, None, 0) raises ZeroDivisionError rather than ValueError')
 
 
